@@ -1,7 +1,7 @@
 """C03 - reported rates equal backing over claims and price every mint/redeem: structural clauses (DESIGN 6, C03).
 Also hosts the shared context enumeration used by C04."""
 from ..callgraph import explore, storage_effects, message_effects, call_sites, written_value_in, site_guarded
-from ..expr import show, find, E, simplify
+from ..expr import show, find, E, simplify, arith_args
 from .common import entry, variant_env, stored, where, arm_handler
 from .hub_common import (receive_handlers, subtree, Roles, resync_fns, recompute_fns, HUBCFG, PARAMS, STATE, BATCH, TOKENS)
 from .msgs import wasm_execute
@@ -32,6 +32,26 @@ def signed_terms(world, e, sign=1):
 def fo(world, e, name):
     """field of a value without expanding effectful workspace calls"""
     return world.ident(simplify(E("field", (e,), (name, "", ""))), expand_ws=False)
+
+
+def value_alts(world, e, depth=0):
+    """alternatives of a computed value, looking through pure workspace helpers (a helper that only computes: its result in terms of
+    the call's arguments); effectful workspace calls stay opaque"""
+    e = world.ident(e, expand_ws=False)
+    out = []
+    for a in (e.args if e.op == "phi" else (e,)):
+        if a.op == "call" and depth < 4:
+            b = world.callee_body(a)
+            if b is not None and b.is_fn() and world.is_pure(b):
+                x = world.expand(a)
+                if x is not a:
+                    out.extend(value_alts(world, x, depth + 1))
+                    continue
+        if a.op == "phi" and depth < 4:
+            out.extend(value_alts(world, a, depth + 1))
+            continue
+        out.append(a)
+    return out
 
 
 def contexts(prog, sem):
@@ -104,7 +124,7 @@ def run(prog, world, sem, rep):
             rep.ob("C03.a", "%s rate update method" % tk, False, "anchor-lost: no State method assigns %s" % RATE[tk])
             continue
         b, rv = mb
-        alts = rv.args if rv.op == "phi" else (rv,)
+        alts = value_alts(world, rv)
         fr = [a for a in alts if a.op == "call" and a.info.endswith("Decimal::from_ratio")]
         ones = [a for a in alts if sem.label(a) == ("const", "lib", "Decimal::one")]
         ok = len(fr) == 1 and len(ones) == 1 and len(alts) == 2
@@ -164,7 +184,7 @@ def run(prog, world, sem, rep):
             for wv1 in wvs:
                 for tk in TOK:
                     rv = fo(world, wv1, RATE[tk])
-                    alts = rv.args if rv.op == "phi" else (rv,)
+                    alts = value_alts(world, rv)
                     form = [a for a in alts if a.op == "call" and a.info.endswith("Decimal::from_ratio")]
                     for a in alts:
                         if a in form or sem.label(a) == ("const", "lib", "Decimal::one"):
@@ -178,7 +198,7 @@ def run(prog, world, sem, rep):
                         pool = world.norm(fo(world, wv1, POOLF[tk]), 0, False)
                         bad = []
                         nn = world.norm(num, 0, False)
-                        rolled = pool.op == "call" and pool.info.endswith("checked_sub") and pool.args[0] == nn  # batch undelegated after the update
+                        rolled = arith_args(pool, "Sub") is not None and arith_args(pool, "Sub")[0] == nn  # batch undelegated after the update
                         if nn != pool and not rolled:
                             bad.append("numerator %s is not the %s pool value stored with it (%s)" % (show(num, 3), tk, show(pool, 3)))
                         dn = world.ident(den, expand_ws=False)
@@ -215,8 +235,8 @@ def run(prog, world, sem, rep):
                         bad.append("mints a constant zero amount")
                         continue
                     core = a
-                    if core.op == "call" and core.info.endswith("checked_sub"):
-                        core = core.args[0]
+                    if arith_args(core, "Sub") is not None:
+                        core = arith_args(core, "Sub")[0]
                     if not (core.op == "call" and world.callee_body(core) is not None and len(core.args) == 2):
                         bad.append("minted amount is not value / rate: %s" % show(a, 3))
                         continue
@@ -239,7 +259,7 @@ def run(prog, world, sem, rep):
                                 o = other[0]
                                 oa = o.args if o.op == "phi" else (o,)
                                 for y in oa:
-                                    y0 = y.args[0] if (y.op == "call" and y.info.endswith("checked_sub")) else y
+                                    y0 = arith_args(y, "Sub")[0] if arith_args(y, "Sub") is not None else y
                                     if roles.role(y0) != ("amount",):
                                         okv = False
                         if not okv:
@@ -258,7 +278,7 @@ def run(prog, world, sem, rep):
             forms = []
             for o in oks:
                 rv = fo(world, world.ident(o, expand_ws=False), RATE[tk])
-                for a in (rv.args if rv.op == "phi" else (rv,)):
+                for a in value_alts(world, rv):
                     if a.op == "call" and a.info.endswith("Decimal::from_ratio") and a not in forms:
                         forms.append((a, o))
             bad = []
